@@ -28,6 +28,7 @@ type event struct {
 	tx    int
 	block int
 	val   int
+	again bool
 }
 
 var (
@@ -42,6 +43,9 @@ var (
 func (e event) String() string {
 	switch e.kind {
 	case "submit":
+		if e.again {
+			return fmt.Sprintf("submit-again:t%d", e.tx+1)
+		}
 		return fmt.Sprintf("submit:t%d", e.tx+1)
 	case "block":
 		return "B:" + W.Names[e.block]
@@ -62,11 +66,12 @@ func world(thorough bool) {
 	t2 := labnet.Pay([]labnet.Out{{Tx: t1, Idx: 0}}, labnet.Prog(0x72)) // child of t1
 	t3 := labnet.Pay([]labnet.Out{P.U[1]}, labnet.Prog(0x73))
 	t4 := labnet.Pay([]labnet.Out{P.U[0]}, labnet.Prog(0x74)) // conflicts with t1, confirmed on branch B
-	txs = []*types.Tx{t1, t2, t3, t4}
+	t5 := labnet.Pay([]labnet.Out{P.Reward[7]}, labnet.Prog(0x75)) // spends a coinbase output: its spent entry stays in the store
+	txs = []*types.Tx{t1, t2, t3, t4, t5}
 	for i, t := range txs {
 		txName[t.ID] = fmt.Sprintf("t%d", i+1)
 	}
-	a1 := w.AddBlock(0, "a1", labnet.BlockOpt{Txs: []*types.Tx{t1}})
+	a1 := w.AddBlock(0, "a1", labnet.BlockOpt{Txs: []*types.Tx{t1, t5}})
 	a2 = w.AddBlock(a1, "a2", labnet.BlockOpt{Txs: []*types.Tx{t2}})
 	b1 := w.AddBlock(0, "b1", labnet.BlockOpt{Tag: 1, Txs: []*types.Tx{t3}})
 	b2 := w.AddBlock(b1, "b2", labnet.BlockOpt{Tag: 1, Txs: []*types.Tx{t4}})
@@ -80,6 +85,13 @@ func world(thorough bool) {
 	}
 	for i := 0; i < nsub; i++ {
 		events = append(events, event{kind: "submit", tx: i})
+	}
+	// the coinbase spend, and second submissions (a lagging peer relays a transaction again, possibly after it
+	// was confirmed): of one ordinary transaction and of the coinbase spend (thorough: of every transaction)
+	events = append(events, event{kind: "submit", tx: 4})
+	events = append(events, event{kind: "submit", tx: 0, again: true}, event{kind: "submit", tx: 4, again: true})
+	if thorough {
+		events = append(events, event{kind: "submit", tx: 1, again: true}, event{kind: "submit", tx: 2, again: true})
 	}
 	for i := 1; i < len(w.Blocks); i++ {
 		events = append(events, event{kind: "block", block: i})
@@ -218,6 +230,17 @@ func runHist(h []int, _ json.RawMessage) (out xplore.Out) {
 		}
 		switch e.kind {
 		case "submit":
+			if e.again {
+				first := false
+				for _, u := range h {
+					if events[u].kind == "submit" && events[u].tx == e.tx && !events[u].again {
+						first = true
+					}
+				}
+				if !first {
+					continue
+				}
+			}
 			out.Enabled = append(out.Enabled, ei)
 		case "block":
 			if delivered[W.Parent[e.block]] {
@@ -258,7 +281,7 @@ func main() {
 		all = append(all, i)
 	}
 	run.Set("events", describe(all))
-	run.Set("rule", "BFS over interleavings of transaction submissions (t2 child of t1, t4 conflicting with t1), in-order block deliveries of two branches confirming overlapping subsets, and three votes that justify the shorter branch (reorganisation back); states merged on node digest + pool/orphan/error-cache content; after every event: no pooled transaction is confirmed on the main chain, the TxMsgEvent stream pairs each MsgNewTx with at most one later MsgRemoveTx and agrees with the pool content")
+	run.Set("rule", "BFS over interleavings of transaction submissions (t2 child of t1, t4 conflicting with t1, t5 spending a coinbase output; second submissions of t1 and t5, thorough: of every transaction), in-order block deliveries of two branches confirming overlapping subsets, and three votes that justify the shorter branch (reorganisation back); states merged on node digest + pool/orphan/error-cache content; after every event: no pooled transaction is confirmed on the main chain, the TxMsgEvent stream pairs each MsgNewTx with at most one later MsgRemoveTx and agrees with the pool content")
 	run.Assume("prelude of 16 blocks processed by the real node; OP_TRUE-style programs")
 	run.Finish()
 }
